@@ -25,14 +25,19 @@ def _num():
     return st.one_of(
         st.sampled_from(NUMS).map(lambda x: ["n", x]),
         st.floats(-3, 3, allow_nan=False).map(lambda x: ["n", round(x, 4)]),
-        st.integers(-3, 4).map(lambda k: ["i", k]),
+        st.sampled_from([-3, -2, -1, 1, 2, 3, 4, 1, 2, 0]).map(lambda k: ["i", k]),
         st.sampled_from([[1, 2], [1, 3], [-2, 3], [3, 4]]).map(lambda pq: ["q", pq[0], pq[1]]),
         st.just(["pi"]),
     )
 
 
+def _num_nz():
+    return _num().filter(lambda t: not (t[0] in ("n", "i") and t[1] == 0))
+
+
 def _pow_exp(ch):
-    return st.one_of(st.sampled_from([["i", 2], ["i", 2], ["i", 3], ["i", -1], ["n", 0.5], ["q", 1, 2], ["n", 2.0], ["i", 0], ["n", 1.5]]),
+    return st.one_of(st.sampled_from([["i", 2], ["i", 2], ["i", 3], ["i", -1], ["n", 0.5], ["q", 1, 2], ["n", 2.0], ["i", -2], ["n", 1.5], ["i", 2], ["i", 3],
+                                      ["i", 0]]),
                      ch, ch)
 
 
@@ -99,7 +104,7 @@ def _exprs_raw(draw, max_leaves=6, funcs=False, nsyms=3, depth=None):
     if k == 7:
         return ["neg", draw(ch)]
     if k == 8:
-        return ["/", draw(ch), draw(st.one_of(_num(), leafish, ch))]
+        return ["/", draw(ch), draw(st.one_of(_num_nz(), _num_nz(), leafish, ch))]
     if k <= 10:
         return ["^", draw(ch), draw(_pow_exp(leafish))]
     if k == 11:
@@ -113,6 +118,14 @@ def nontrivial_exprs(max_leaves=6, funcs=False, syms=SYMS):
     """Mostly composite expressions."""
     e = exprs(max_leaves, funcs, syms)
     return st.one_of(e, e.filter(lambda t: t[0] not in ("s", "n", "i", "q", "pi")))
+
+
+def slot_exprs(max_leaves=5, syms=SYMS):
+    """Expressions for gate slots: nearly always with at least one symbol (a bare sympy constant in a slot is a documented
+    corner of the protocol, kept at a low rate)."""
+    e = nontrivial_exprs(max_leaves, syms=syms)
+    with_sym = e.filter(lambda t: bool(M.names_of(t)))
+    return st.one_of(with_sym, with_sym, with_sym, with_sym, with_sym, with_sym, with_sym, e)
 
 
 def real_values():
@@ -222,13 +235,13 @@ def sym_gate(draw, families=None, max_arity=3, leaves=5, p_sym=1.0, syms=SYMS):
         n = len(params["angles"])
         idx = draw(st.lists(st.integers(0, n - 1), min_size=1 if p_sym >= 1 else 0, max_size=min(n, 3), unique=True))
         if idx:
-            slots["angles"] = {str(i): draw(nontrivial_exprs(leaves, syms=syms)) for i in sorted(idx)}
+            slots["angles"] = {str(i): draw(slot_exprs(leaves, syms=syms)) for i in sorted(idx)}
     else:
         chosen = [k for k in keys if draw(st.integers(0, 9)) < 7]
         if not chosen and draw(st.integers(0, 99)) < 100 * p_sym:
             chosen = [draw(st.sampled_from(keys))]
         for k in chosen:
-            slots[k] = draw(nontrivial_exprs(leaves, syms=syms))
+            slots[k] = draw(slot_exprs(leaves, syms=syms))
     return {"g": [name, params], "slots": slots}
 
 
